@@ -283,7 +283,14 @@ func validate(env *run.Env, bin string, traceMod string, idx int, progs []gen.Pr
 			continue
 		}
 		of := filepath.Join(env.Scratch, fmt.Sprintf("b%d.%s.ev.ndjson", idx, ob.tag))
-		if r.err = env.Exec(ob.bin, pf, of, execTimeout(env)); r.err != nil {
+		if err := env.Exec(ob.bin, pf, of, execTimeout(env)); err == run.ErrHang {
+			// the other build hung too (or instead): its log is not compared; the default build's events and its own
+			// hang policy decide this batch
+			r.hang = true
+			os.Remove(of)
+			continue
+		} else if err != nil {
+			r.err = err
 			return r
 		}
 		ol, err := readLines(of)
